@@ -69,6 +69,15 @@ prop("C20", "exhaustive enumeration of all interpretation vectors up to length 7
      "All 21845 vectors over {false, true, Term(2), Term(12)} of length <= 7: both public iterators collected and compared as multisets with the 2^k completions / 3^k refinements, first three-valued item = input.",
      "Trusted: the independent enumeration of completions/refinements (adfmc/src/c20.rs).", "DESIGN.md 4 C20")
 
+SRV = "Trusted: the in-harness MongoDB stub's semantics for the six commands the server uses (equality filters, $set with dotted paths, replacement keeping _id, unique index on insert and update, n/nModified) - the environment model; the Python copy of the definitional oracle (srvmc/harness.py). Timing (the 120 s compute time-out) and memory-level races inside one handler are not explored."
+
+prop("C16", "explicit-state search on the real server binary over a MongoDB wire-protocol stub that captures the background result writes as explicit events",
+     "Every ADF of A(1) and A(2) (thorough: + F(3,1)) x both parsing strategies is submitted over HTTP; six strategies in rotated order with GETs after the computation ended but before its result is stored and after; for 8 codes (thorough: all of A(2)) a breadth-first search over the whole lattice of solved-strategy subsets (64 states / 192 transitions each, restored from database snapshots); every stored result = definitional answer as multiset; every graph: node set = closure of the roots, one lo/hi edge per decision node, walking from the root label of s under every assignment consistent with the shown model evaluates s's condition; unparseable and ill-formed codes end as Error and are never solved; running_tasks empty whenever every task has ended. 21k requests in the quick tier.",
+     SRV, "DESIGN.md 4 C16", engine="srvmc")
+prop("C17", "explicit-state BFS over request histories of two clients (snapshot/restore, deferrable background writes) + controlled-scheduler exploration of all database-command interleavings of concurrent requests, on the real server binary",
+     "E1: breadth-first search to depth 3 from the empty service and depth 2-3 from three seeds over an alphabet of 29 requests per client (register/login/update incl. the other's and a shared name, logout, info, delete-account, add with and without session, solve, get, list, delete, unauthenticated variants) plus 'apply pending background write'; E2: for 140 (request, request sequence) pairs every interleaving of their database commands with <= 1 preemption (thorough 3), each replayed from a seed snapshot under a scheduler that parks every command. After every transition: no foreign marker in a response, foreign documents byte-identical, unauthenticated requests refused, login succeeds iff the password is the one last set, credentials are salted argon2 hashes and never plaintext, account names unique, and alone-equivalence (differential: the client's projected history re-executed alone, memoised).",
+     SRV + " Clients never share passwords, so every cross-account access is illegitimate. Known finding K1 (mutable account name as key) is matched on the hand-over pattern in the history, not on the clause.", "DESIGN.md 4 C17", engine="srvmc")
+
 
 def main():
     checks = []
